@@ -96,6 +96,11 @@ fn main() {
             }
         }
         stdout.push_str("pack build output\n");
+        if scripted_fail {
+            // a failing pack build relays whatever the buildpacks and the docker client printed
+            stdout.push_str(&std::env::var("VSTUB_FAIL_MSG").unwrap_or_default());
+            stdout.push('\n');
+        }
     } else if prog == "pack" && sub == "sbom" {
         if !failed {
             if let Some(i) = a.iter().position(|t| t == "--output-dir") {
@@ -147,9 +152,16 @@ fn main() {
     let rec = serde_json::json!({"n": n, "prog": prog, "argv": a, "failed": failed, "extra": extra});
     let mut f = std::fs::OpenOptions::new().create(true).append(true).open(&log).expect("log");
     let _ = writeln!(f, "{rec}");
+    if failed && extra.get("scripted_pack_failure").is_some() {
+        print!("{stdout}");
+    }
     if failed {
-        eprintln!("vstub: injected failure");
-        std::process::exit(1);
+        // exit code and message of an injected failure are part of the scenario (docker uses 125/126/127 for its own errors)
+        let code: i32 = std::env::var("VSTUB_FAIL_CODE").ok().and_then(|s| s.parse().ok()).unwrap_or(1);
+        let msg = std::env::var("VSTUB_FAIL_MSG").unwrap_or_else(|_| "vstub: injected failure".to_string());
+        println!("{msg}");
+        eprintln!("{msg}");
+        std::process::exit(code);
     }
     print!("{stdout}");
 }
